@@ -344,9 +344,14 @@ class Eval:
                 ea = dict(env)
                 self.bind_pat(a["pat"], sc, ea)
                 self.conds.append((("arm", sc, hq.pat_key(a["pat"])), True))
+                npush = 1
+                if "guard" in a:
+                    self.conds.append((self.expr(a["guard"], ea, depth), True))
+                    npush = 2
                 self.effect(a["body"], ea, depth)
-                self.conds.pop()
-                envs.append((hq.pat_key(a["pat"]), ea))
+                for _ in range(npush):
+                    self.conds.pop()
+                envs.append((hq.pat_key(a["pat"]) + (" if .." if "guard" in a else ""), ea))
             self.merge(env, ("match", sc), envs)
             return
         if k == "Block":
